@@ -24,7 +24,8 @@ RULE_TEXT = (
     "Connection->DatabaseError(250002,'08003'); C07.b sqlstate None after a successful execute whatever it was, "
     "== error's sqlstate after a failing one, same exception re-raised; C07.c=C03.b; C07.d=C03.d; C07.e undefined "
     "variable -> ProgrammingError before parse/engine; C07.f first engine call of each public entry is inside a try "
-    "with a handler for duckdb.ConnectionException."
+    "with a handler for duckdb.ConnectionException; C07.g=C13.e; C07.h=C03.c; C07.i a statement replaced by the no-op "
+    "still has its table looked up by the engine."
 )
 TRUSTED = ["CPython ast", "error codes quoted in the property text", "DuckDB raises ConnectionException on any use of a closed cursor"]
 
